@@ -27,6 +27,7 @@ func main() {
 	list := flag.Bool("list", false, "list rules")
 	noSelf := flag.Bool("noselftest", false, "thorough tier without the mutant self-test")
 	dump := flag.Bool("dump", false, "print every obligation")
+	canonTables := flag.Bool("canontables", false, "maintenance, never part of a check: rewrite tables/*.json and KNOWN_FINDINGS.jsonl with the canonical forms (ckey / cneeds / cmentions) computed on the current tree")
 	findings := flag.Bool("findings", false, "print FINDING rule|key for every non-discharged obligation and write nothing (used by the self-test)")
 	flag.Parse()
 	if t := os.Getenv("VERIF_TIER"); t != "" && !isFlagSet("tier") {
@@ -58,6 +59,18 @@ func main() {
 			os.Exit(2)
 		}
 		*prop = replayObl.Property
+	}
+	if *canonTables {
+		prog, err := core.Load(core.LoadOpts{Dir: *repo})
+		if err != nil {
+			fmt.Println("load:", err)
+			os.Exit(2)
+		}
+		if err := rules.CanonicaliseTables(prog, *verif); err != nil {
+			fmt.Println("canontables:", err)
+			os.Exit(2)
+		}
+		os.Exit(0)
 	}
 	run, ok := rules.Registry[*prop]
 	if !ok {
@@ -110,6 +123,7 @@ func main() {
 			rep.ApplyFloors()
 			for _, o := range rep.Obls {
 				if o.Status != core.Discharged {
+					// keys are canonical (core/canon.go): what is compared between runs does not depend on local names
 					fmt.Printf("FINDING %s|%s\n", o.Rule, o.Key)
 				}
 			}
